@@ -372,20 +372,17 @@ def run (cfg : Config) : State → Req → List Reply → List Req × End
     match redirectBehavior cur.method r.status (cfg.getBody || cfg.noBody) with
     | none => (sent, .response r.status)
     | some (rm, inclBody) =>
-      match r.loc with
-      | .missing => (sent, .noLocation r.status)
-      | loc =>
-        match resolve last.url loc with
-        | none => (sent, .badLocation)
-        | some u =>
-          let copier := if cfg.jar then st.copier.onResponse r.setCookie else st.copier
-          let (nreq, strip) := nextRequest cfg st last r u rm inclBody copier
-          match checkRedirect cfg.ps nreq st.prev last with
-          | (.allow, hdr) =>
-            run cfg { prev := sent, strip := strip, jar := jar, copier := copier }
-              { nreq with hdr := hdr } rs
-          | (.deny, _) => (sent, .refused r.status)
-          | (.useLast, _) => (sent, .useLast r.status)
+      if r.loc = .missing then (sent, .noLocation r.status) else
+      match resolve last.url r.loc with
+      | none => (sent, .badLocation)
+      | some u =>
+        let copier := if cfg.jar then st.copier.onResponse r.setCookie else st.copier
+        let nx := nextRequest cfg st last r u rm inclBody copier
+        match checkRedirect cfg.ps nx.1 st.prev last with
+        | (.allow, hdr) =>
+          run cfg { prev := sent, strip := nx.2, jar := jar, copier := copier } { nx.1 with hdr := hdr } rs
+        | (.deny, _) => (sent, .refused r.status)
+        | (.useLast, _) => (sent, .useLast r.status)
 
 /-- `Client.Do(ireq)` against a script. -/
 def start (cfg : Config) (ireq : Req) (script : List Reply) : List Req × End :=
